@@ -34,6 +34,10 @@ function* ownGroups() {
     // a lone function child of a host that does not take slots
     '<KeepAlive>{() => [F()]}</KeepAlive>', '<div>{() => [G]}</div>', '<>{() => [G]}</>', '<x-el v-slots={GS}>{(item) => [item]}</x-el>', '<div>{function () { return [G]; }}</div>', '<KeepAlive v-slots={GS}>{() => [G]}</KeepAlive>'];
   for (const j of PAREN) for (const ctx of ['arrow', 'fn']) yield mk([], ctx === 'arrow' ? `export const t0 = () => ${j};` : `export function t0() {\n  return ${j};\n}`, `paren|${j}|${ctx}`);
+  // literal attribute text with odd spacing, and children guarded by a falsy value that still renders (0, "")
+  const LIT = ['<div class=" foo   bar " id={G}>x</div>', '<div class="a  b" />', '<C0 class=" pad " title="  t  " />', '<p style=" color : red ;  " id={G} />', '<div class="" id="" title=" ">{G}</div>',
+    '<ul>{Z0 && <li>some</li>}<li>tail</li></ul>', '<ul>{ZS && <li>some</li>}</ul>', '<C0>{Z0 && <i>a</i>}</C0>', '<>{Z0 && <i />}{ZS || <b />}{Z0 ?? <u />}</>', '<div>{Z0 ? <i /> : Z0}</div>', '<div>{!Z0 && <i />}{Z0 || ZS}</div>', '<ul>{Z0 && F()}</ul>'];
+  for (const j of LIT) yield mk([], `export const t0 = () => ${j};`, `lit|${j}`, (b) => { b.global({ k: 'num', v: 0 }, { name: 'Z0' }); b.global({ k: 'str', v: '' }, { name: 'ZS' }); });
   // an assignment whose JSX holds several components: which of them sees the remembered target must not depend on optimize
   const ASSIGN = ['<div><A0>{y}</A0><B0>{x}</B0></div>', '<Outer><A0>{F()}</A0><B0>{x}</B0></Outer>', '<A0><B0>{y}</B0><B1>{x}</B1><B2>{x}</B2></A0>', '<div><A0>{x}</A0><B0>{x}</B0></div>', '<><A0>{F()}</A0>{x}<B0>{x}</B0></>'];
   for (const j of ASSIGN) for (const ctx of ['arrowBlock', 'fn']) {
